@@ -1403,3 +1403,22 @@ package state
 //@ ensures[stored-verbatim] err == nil ==> T_service_virtual_ips(req.Service) != nil && eq(T_service_virtual_ips(req.Service).(ServiceVirtualIP).IP, req.IP) && T_service_virtual_ips(req.Service).(ServiceVirtualIP).ModifyIndex == req.ModifyIndex && T_service_virtual_ips(req.Service).(ServiceVirtualIP).CreateIndex == req.CreateIndex && T_service_virtual_ips(req.Service).(ServiceVirtualIP).Service == req.Service
 //@ ensures[other-rows-untouched] forall k string :: T_service_virtual_ips(k) == old(T_service_virtual_ips(k)) || T_service_virtual_ips(k) == T_service_virtual_ips(req.Service)
 //@ modifies T.service-virtual-ips, T.index
+
+//@ file peering.go
+// ---- C02: restoring a peering's secrets restores the derived "secret ID in use" table with them: every secret ID
+// the record carries (establishment, pending stream, ACTIVE stream) is registered, so the restored server frees,
+// validates and rotates secrets exactly like the server that took the snapshot.
+//@ func Restore.PeeringSecrets
+//@ props C02
+//@ results err
+//@ requires r != nil && p != nil
+//@ ensures[stored-verbatim] err == nil ==> T_peering_secrets(p.PeerID) == p
+//@ ensures[establishment-secret-in-use] err == nil && p.Establishment != nil && p.Establishment.SecretID != "" ==> T_peering_secret_uuids(p.Establishment.SecretID) != nil
+//@ ensures[pending-stream-secret-in-use] err == nil && p.Stream != nil && p.Stream.PendingSecretID != "" ==> T_peering_secret_uuids(p.Stream.PendingSecretID) != nil
+//@ ensures[active-stream-secret-in-use] err == nil && p.Stream != nil && p.Stream.ActiveSecretID != "" ==> T_peering_secret_uuids(p.Stream.ActiveSecretID) != nil
+//@ ensures[no-secret-id-released] forall k string :: old(T_peering_secret_uuids(k)) != nil ==> T_peering_secret_uuids(k) != nil
+//@ ensures[other-records-untouched] forall k string :: strLower(k) != strLower(p.PeerID) ==> T_peering_secrets(k) == old(T_peering_secrets(k))
+//@ modifies T.peering-secrets, T.peering-secret-uuids
+//@ loop 1 invariant[registered-so-far] 0 <= range1_idx && forall j int :: 0 <= j && j < range1_idx ==> T_peering_secret_uuids(uuids[j]) != nil
+//@ loop 1 invariant[no-secret-id-released] forall k string :: old(T_peering_secret_uuids(k)) != nil ==> T_peering_secret_uuids(k) != nil
+//@ loop 1 invariant[record-stored] T_peering_secrets(p.PeerID) == p && forall k string :: strLower(k) != strLower(p.PeerID) ==> T_peering_secrets(k) == old(T_peering_secrets(k))
